@@ -35,6 +35,17 @@ static vector<string> check(const vector<string>& strs)
   // an empty interned_string (default constructed) compares equal to the empty plain string
   interned_string e;
   if (!(e == string("")) || string(e) != "") bad.push_back("empty-differs");
+  // ... and like the empty string with every operator, in both operand orders, against every string of the case
+  for (size_t j = 0; j < strs.size(); ++j)
+    {
+      bool eq = strs[j].empty();
+      if ((e == strs[j]) != eq || (strs[j] == e) != eq) bad.push_back("default-constructed-eq-with-string-differs");
+      if ((e != strs[j]) == eq || (strs[j] != e) == eq) bad.push_back("default-constructed-ne-with-string-differs");
+      if ((e == is[j]) != eq || (is[j] == e) != eq || (e != is[j]) == eq || (is[j] != e) == eq)
+	bad.push_back("default-constructed-vs-interned-differs");
+      if ((e < is[j]) != (string() < strs[j]) || (is[j] < e) != (strs[j] < string())) bad.push_back("default-constructed-order-differs");
+    }
+  if ((e != string("")) || (string("") != e) || !(string("") == e)) bad.push_back("default-constructed-vs-empty-string-differs");
   std::sort(bad.begin(), bad.end()); bad.erase(std::unique(bad.begin(), bad.end()), bad.end());
   return bad;
 }
